@@ -40,7 +40,7 @@ def run(ctx: core.Ctx):
     for k in range(ctx.budget(80, 600)):
         nobs = rng.choice([5, 6, 8, 12, 23, 36, 72] + ([] if ctx.quick else [144, 250, 400]))
         marks, template, labels, kind = layout(rng, nobs)
-        fam = rng.choice(["const", "linear", "ndvi", "walk", "ndvi"])
+        fam = rng.choice(["const", "linear", "ndvi", "walk", "ndvi", "zeros", "sign"])
         if fam == "const":
             x = np.full(nobs, rng.randint(-3000, 9000), dtype="int16")
         elif fam == "linear":
@@ -48,6 +48,10 @@ def run(ctx: core.Ctx):
             if abs(a + b * marks[-1]) > 10000:
                 b = 1 if a < 0 else -1
             x = np.array([a + b * d for d in marks], dtype="int16")
+        elif fam == "zeros":
+            x = np.array(gen.series(rng, nobs, "ndvi"), dtype="int16")
+            for i in rng.sample(range(nobs), max(1, nobs // 5)):
+                x[i] = 0                      # an observation that is exactly 0 is still an observation
         else:
             x = np.array(gen.series(rng, nobs, fam), dtype="int16")
         nruns = int(1 + np.count_nonzero(np.diff(labels)))
